@@ -193,6 +193,16 @@ def run(tier, seed):
             add({"status": "failed" if o["status"] in ("failed", "raised") else o["status"], "events": rec.events,
                  "graphnodes": events.graph_node_names(pa)}, f"schedule/{kind}/rep{rep}")
     ctx.bump("controlled_schedules", n_sched)
+    # 5. rejected calls: the accepted stream is the empty one
+    nrej = 0
+    for tr, tag, how in rejected_calls():
+        add(tr, tag)
+        nrej += 1
+        ctx.count()
+        if how["raised"] is None or how["bodies_run"]:
+            ctx.violation("rejected-call-executed", {"case": tag, **how},
+                          f"{tag}: a call the contract rejects {'returned normally' if how['raised'] is None else 'raised'} after running {how['bodies_run']}")
+    ctx.bump("rejected_calls", nrej)
     # ---- trace validation by TLC
     res, stats = events.validate_streams(traces)
     ctx.add_tlc(stats)
@@ -213,7 +223,61 @@ def run(tier, seed):
     ctx.sample({"case": meta[mid["id"]][0], "status": mid["status"], "events": [(e["t"], e["node"] or e["graph"]) for e in mid["events"]][:25]})
     ctx.assumptions += ["events are recorded through the public EventProcessor / AsyncEventProcessor API (the async recorder suspends on every event)",
                         "SpanTree.tla is a trace specification: one action per event type, enabled only if legal in the current span tree; TLC consumes every recorded stream"]
-    return ctx.finish(rule="recorded event streams of terminated runs: flat / nested (depth <= 2) / gated / cyclic programs with each node failing in turn, both runners, sync and suspending async processors, raise and continue modes; cached re-runs; cache backends whose set()/get() raise; mapping nodes and runner.map (C10 family); controlled completion orders under max_concurrency; distinct = hash of the event-type/name sequence per case kind")
+    return ctx.finish(rule="recorded event streams of terminated runs: flat / nested (depth <= 2) / gated / cyclic programs with each node failing in turn, both runners, sync and suspending async processors, raise and continue modes; cached re-runs; cache backends whose set()/get() raise; mapping nodes and runner.map (C10 family); controlled completion orders under max_concurrency; rejected calls (invalid options, missing inputs, incompatible runner, bad map arguments: the stream must be empty); distinct = hash of the event-type/name sequence per case kind")
+
+
+def rejected_calls():
+    """Calls the runner REJECTS (documented contract: invalid option value, unknown selected output, missing
+    required input, a provided internal value under on_internal_override="error", a sync runner given an async
+    node, map over an unknown parameter / unequal zip lengths / unknown map mode / invalid error_handling).  Such a call
+    raises before any node body runs and the recorded stream is EMPTY (no event, no shutdown)."""
+    flat = IR.prog("top", [IR.func("A", ["x"], ["a"]), IR.func("B", ["a", "k"], ["b"], defaults=["k"])])
+    inner = IR.prog("inner", [IR.func("A", ["x"], ["a"])], max_iter=1000)
+    nested = IR.prog("top", [IR.graph_node(inner, name="inner", inputs=["x"], outputs=["a"]), IR.func("B", ["a", "k"], ["b"], defaults=["k"])])
+    aflat = IR.prog("top", [IR.func("A", ["x"], ["a"], is_async=True), IR.func("B", ["a", "k"], ["b"], defaults=["k"])])
+    X = {"x": "in.x"}
+    calls = [
+        ("run", "missing-input", {}, {}),
+        ("run", "bad-on_missing", X, {"on_missing": "raise"}),
+        ("run", "bad-error_handling", X, {"error_handling": "stop"}),
+        ("run", "bad-select", X, {"select": ["nope"]}),
+        ("run", "bad-override-policy", X, {"on_internal_override": "boom"}),
+        ("run", "internal-override-error", {"x": "in.x", "a": "in.a"}, {"on_internal_override": "error"}),
+        ("run", "sync-runner-async-node", X, {}),        # only where the runner cannot run the graph
+        ("map", "map-unknown-param", {"x": ["1", "2"]}, {"map_over": "y"}),
+        ("map", "map-unequal-zip", {"x": ["1", "2"], "k": ["1"]}, {"map_over": ["x", "k"]}),
+        ("map", "map-bad-mode", {"x": ["1", "2"]}, {"map_over": "x", "map_mode": "zap"}),
+        ("map", "map-bad-error_handling", {"x": ["1", "2"]}, {"map_over": "x", "error_handling": "stop"}),
+        ("map", "map-sync-runner-async-node", {"x": ["1", "2"]}, {"map_over": "x"}),
+        # NOT in the list: what only an ITEM's run rejects (a missing input, an invalid on_missing): by design (and by the
+        # suite's test_map_continue_handles_item_exceptions) that is a failure of the item inside a map that did start
+    ]
+    out = []
+    for pname, prog in (("flat", flat), ("nested", nested), ("async-node", aflat)):
+        for mode in ("sync", "async"):
+            for asyncrec in (False, True):
+                for what, name, vals, kw in calls:
+                    if name.endswith("sync-runner-async-node") and not (mode == "sync" and pname == "async-node"):
+                        continue
+                    if mode == "sync" and pname == "async-node" and not name.endswith("sync-runner-async-node"):
+                        continue            # one reason per call
+                    rt = build.Runtime(prog)
+                    with warnings.catch_warnings():
+                        warnings.simplefilter("ignore")
+                        g = build.build_graph(rt, prog)
+                        rec = events.AsyncRecorder() if asyncrec else events.Recorder()
+                        runner = SyncRunner() if mode == "sync" else AsyncRunner()
+                        raised = None
+                        try:
+                            r = getattr(runner, what)(g, dict(vals), event_processors=[rec], **kw)
+                            if asyncio.iscoroutine(r):
+                                r = asyncio.run(r)
+                        except Exception as e:  # noqa: BLE001
+                            raised = e
+                    tag = f"rejected-call/{pname}/{mode}/{'async' if asyncrec else 'sync'}-processor/{what}:{name}/{type(raised).__name__}"
+                    out.append(({"status": "rejected", "events": rec.events, "graphnodes": events.graph_node_names(prog)}, tag,
+                                {"raised": type(raised).__name__ if raised is not None else None, "bodies_run": [c["path"] for c in rt.log]}))
+    return out
 
 
 def record_map(j, rng):
